@@ -48,15 +48,15 @@ type pCall struct {
 
 type pWorld struct {
 	base
-	srv            *simredis.Server
-	faulty         bool
-	period, quota  int
-	align          bool
-	keys           map[string]*pKey
-	cur            map[int]*pCall
-	takes, grants  int
-	noscript       int // NOSCRIPT replies (EVALSHA before the script was loaded)
-	execs          int
+	srv           *simredis.Server
+	faulty        bool
+	period, quota int
+	align         bool
+	keys          map[string]*pKey
+	cur           map[int]*pCall
+	takes, grants int
+	noscript      int // NOSCRIPT replies (EVALSHA before the script was loaded)
+	execs         int
 }
 
 func (w *pWorld) wantCode(i int) int64 {
